@@ -131,7 +131,7 @@ void j_hypot(Ctx & c, int64_t a, int64_t b, int64_t)
   {
   const int64_t LIM = 1ll << 47;
   if(sabs(a) >= LIM || sabs(b) >= LIM) return;
-  int64_t hi = std::max(sabs(a), sabs(b)), lo = std::min(sabs(a), sabs(b));
+  const int64_t sa = sabs(a), sb = sabs(b); int64_t hi = sa > sb ? sa : sb, lo = sa > sb ? sb : sa;
   bool small = hi < (1ll << 30);
   const char * branch = hi == 0 ? "zero" : (hi >= (1ll << 30) ? "shift-right" : (lo < 65536 ? "shift-left" : "direct"));
   c.stratum(std::string("hypot-") .append(branch).c_str());
